@@ -287,7 +287,7 @@ def judge_emboss(ctx, bench, name, entries, cp, prods, start):
 
 def run(ctx):
     ctx.rule = ("N random CFGs per run (<= 6 nonterminals, <= 10 productions, <= 4 terminals; styles plain/nullable/left-/right-recursive/"
-                "ambiguous/cyclic/expression/list/unclean) -> lr1.Grammar(...).parser(); every string over the grammar's terminals up to "
+                "ambiguous/cyclic/expression/list/unclean, plus ~15% from the nullable-chain family: a nonterminal nullable only through other nonterminals, chain depth 2-3, at the start/middle/end of the start production after a terminal/nonterminal/optional leaf) and the fixed regression grammars of corpus/C08 -> lr1.Grammar(...).parser(); every string over the grammar's terminals up to "
                 "length 6 (5 for 4 terminals; cap 1100) plus three out-of-alphabet probes: Parser.parse vs model `run` (all fields) and, for "
                 "conflict-free grammars, vs an independent Earley recogniser (membership, two-derivation search, longest viable prefix) and a "
                 "derivation checker; Emboss module/expression grammars: derived sentences + 2 token-level mutations each.  A case is "
